@@ -11,14 +11,25 @@ SetBallot).  Every voted incoming ballot starts its own goroutine ("delivery"):
   send    hand a ballot to the network
 
 Other stage points use other pool keys and do not interact; handlers and re-broadcast timers
-go through the same `Broadcast` (set; send).  `sendStored` says which ballot `send` hands
-over: the one just signed (the code before the repair) or the one the pool holds.
+go through the same `Broadcast` (set; send).  `Code.sendStored` says which ballot `send` hands
+over: the one just signed (the code before the repair) or the one the pool holds;
+`Code.stopsOnSetError` whether a failed pool write ends the broadcast; `Code.keysAgree` whether the
+pool writes a ballot under the key it is read from.  A delivery's pool write may fail
+(`Delivery.setFails`: no space left, storage closed).
 -/
 namespace Mitum.Mimic
 
 structure Delivery where
   fact : Nat
   pc : Nat          -- 0 = before check, 1 = before set, 2 = before send, 3 = done
+  setFails : Bool   -- the pool write of this delivery returns an error (no space left, storage closed)
+deriving Repr, DecidableEq
+
+/-- which clauses the code has (extracted from the source on every run) -/
+structure Code where
+  sendStored : Bool        -- `Broadcast` hands the ballot the pool holds to the network, not the one just signed
+  stopsOnSetError : Bool   -- `Broadcast` returns when `set` fails
+  keysAgree : Bool         -- `SetBallot` writes under the key `Ballot` reads (same suffrage-confirm flag)
 deriving Repr, DecidableEq
 
 structure St where
@@ -29,26 +40,39 @@ deriving Repr, DecidableEq
 
 def setAt (ds : List Delivery) (i : Nat) (d : Delivery) : List Delivery := ds.set i d
 
+/-- what a read of the pool under the reader's key sees -/
+def seen (c : Code) (s : St) : Option Nat := if c.keysAgree then s.pool else none
+
 /-- one step of delivery `i` (nothing happens when `i` is out of range or the delivery is done) -/
-def step (sendStored : Bool) (s : St) (i : Nat) : St :=
+def step (c : Code) (s : St) (i : Nat) : St :=
   match s.ds[i]? with
   | none => s
   | some d =>
     match d.pc with
-    | 0 => match s.pool with
+    | 0 => match seen c s with
       | some _ => { s with ds := setAt s.ds i { d with pc := 3 } }      -- local has one already
       | none => { s with ds := setAt s.ds i { d with pc := 1 } }
-    | 1 => { s with pool := (match s.pool with | some f => some f | none => some d.fact),
-                    ds := setAt s.ds i { d with pc := 2 } }
+    | 1 =>
+      if d.setFails then
+        { s with ds := setAt s.ds i { d with pc := if c.stopsOnSetError then 3 else 2 } }
+      else
+        { s with pool := (match s.pool with | some f => some f | none => some d.fact),
+                 ds := setAt s.ds i { d with pc := 2 } }
     | 2 =>
-      let f := if sendStored then (match s.pool with | some f => f | none => d.fact) else d.fact
+      let f := if c.sendStored then (match seen c s with | some f => f | none => d.fact) else d.fact
       { s with sent := s.sent ++ [f], ds := setAt s.ds i { d with pc := 3 } }
     | _ => s
 
-def run (sendStored : Bool) (s : St) : List Nat → St
+def run (c : Code) (s : St) : List Nat → St
   | [] => s
-  | i :: r => run sendStored (step sendStored s i) r
+  | i :: r => run c (step c s i) r
 
-def start (facts : List Nat) : St := { pool := none, sent := [], ds := facts.map (fun f => { fact := f, pc := 0 }) }
+/-- deliveries of the given facts; the flag says whether the delivery's pool write fails -/
+def startF (facts : List (Nat × Bool)) : St :=
+  { pool := none, sent := [], ds := facts.map (fun f => { fact := f.1, pc := 0, setFails := f.2 }) }
+
+def start (facts : List Nat) : St := startF (facts.map (fun f => (f, false)))
+
+def fixed : Code := { sendStored := true, stopsOnSetError := true, keysAgree := true }
 
 end Mitum.Mimic
